@@ -178,10 +178,26 @@ class Obs:
 
 
 def open_fds():
+    """Descriptors open right now.  Reading the table itself uses transient descriptors (the
+    directory, and a duplicate made by listdir), which show up in the listing: every entry is
+    therefore confirmed by readlink AFTER those are closed, so a descriptor leaked into one of their
+    slots is neither hidden nor invented."""
     try:
-        return set(os.listdir("/proc/self/fd"))
+        d = os.open("/proc/self/fd", os.O_RDONLY | os.O_DIRECTORY)
     except OSError:
         return set()
+    try:
+        names = set(envsub.REAL["listdir"](d))
+    finally:
+        os.close(d)
+    out = set()
+    for n in names:
+        try:
+            os.readlink("/proc/self/fd/" + n)
+            out.add(n)
+        except OSError:
+            pass
+    return out
 
 
 def fd_targets(fds):
